@@ -564,8 +564,8 @@ fn render_code_block<'a, T>(
 
             match context.plugins.render.codefence_syntax_highlighter {
                 None => {
-                    write_opening_tag(context, "pre", pre_attributes)?;
-                    write_opening_tag(context, "code", code_attributes)?;
+                    write_opening_tag(context, "pre", sorted_attributes(pre_attributes))?;
+                    write_opening_tag(context, "code", sorted_attributes(code_attributes))?;
 
                     context.escape(literal)?;
 
@@ -591,6 +591,14 @@ fn render_code_block<'a, T>(
     }
 
     Ok(ChildRendering::HTML)
+}
+
+/// Attributes in a fixed (alphabetical) order, so that the output does not
+/// depend on the map's per-instance hash seed.
+fn sorted_attributes(attributes: HashMap<String, String>) -> Vec<(String, String)> {
+    let mut attributes: Vec<(String, String)> = attributes.into_iter().collect();
+    attributes.sort();
+    attributes
 }
 
 fn render_document<'a, T>(
